@@ -68,7 +68,7 @@ Definition set_nth {A} (l : list A) (i : nat) (x : A) : list A := firstn i l ++ 
 Definition c_step (deg : nat) (hs : handles) (o : cop) : option (handles * obs * option itree) :=
   match o with
   | CClone s d => match nth s hs None with
-                  | Some t => if Nat.ltb d (length hs) then Some (set_nth hs d (Some t), OUnit, None) else None
+                  | Some t => if Nat.ltb d (length hs) then Some (set_nth hs d (Some t), OUnit, Some t) else None
                   | None => None end
   | COn h io => match nth h hs None with
                 | Some t => match i_step deg t io with
@@ -77,13 +77,25 @@ Definition c_step (deg : nat) (hs : handles) (o : cop) : option (handles * obs *
                 | None => None end
   | CSnap => Some (hs, OSnap (map (option_map (fun t => (itree_scan (collect_visit 0) EAscend 0 0 t [], ilen t))) hs), None)
   end.
+(* ownership as the copy-on-write code leaves it (two consequences of the heap-level model, C03_HeapWorld.v, that do not
+   depend on the shape of the tree): after ReplaceOrInsert through a handle the root node belongs to the handle's context;
+   right after Clone neither handle owns any node *)
+Fixpoint no_owned (s : snode) : bool := match s with SNode o _ ch => negb o && forallb no_owned ch end.
+Definition root_owned (s : snode) : bool := match s with SNode o _ _ => o end.
+Definition own_chk (o : cop) (sh : option shape) : bool :=
+  match o, sh with
+  | CClone _ _, Some (Some s, _) => no_owned s
+  | COn _ (IIns _), Some (Some s, _) => root_owned s
+  | _, _ => true
+  end.
+
 Fixpoint c_run (deg : nat) (hs : handles) (l : list cstep) : bool :=
   match l with
   | [] => true
   | (o, r, sh) :: l' =>
       match c_step deg hs o with
       | Some (hs', r', ot) =>
-          obs_eqb r r'
+          obs_eqb r r' && own_chk o sh
           && match ot with Some t' => shape_is deg (itree_list t') sh && (ilen t' <? LIM) | None => true end
           && c_run deg hs' l'
       | None => false
@@ -149,7 +161,7 @@ Definition shandles := list (option (list item)).
 Definition cs_step (hs : shandles) (o : cop) : option (shandles * obs * option (list item)) :=
   match o with
   | CClone s d => match nth s hs None with
-                  | Some L => if Nat.ltb d (length hs) then Some (set_nth hs d (Some L), OUnit, None) else None
+                  | Some L => if Nat.ltb d (length hs) then Some (set_nth hs d (Some L), OUnit, Some L) else None
                   | None => None end
   | COn h io => match nth h hs None with
                 | Some L => Some (set_nth hs h (Some (fst (is_step L io))), snd (is_step L io), Some (fst (is_step L io)))
@@ -162,7 +174,7 @@ Fixpoint cs_run (deg : nat) (hs : shandles) (l : list cstep) : bool :=
   | (o, r, sh) :: l' =>
       match cs_step hs o with
       | Some (hs', r', oL) =>
-          obs_eqb r r'
+          obs_eqb r r' && own_chk o sh
           && match oL with Some L' => shape_is deg L' sh | None => true end
           && cs_run deg hs' l'
       | None => false
@@ -247,17 +259,18 @@ Proof.
   intros Hd. induction l as [|[[o r] sh] l IH]; intros hs shs HR H; [reflexivity|].
   cbn [c_run] in H. cbn [cs_run]. destruct o as [s d|h io|]; cbn [c_step cs_step] in *.
   - pose proof (hrel_nth deg hs shs s HR) as Hn. destruct (nth s hs None) as [t|]; [|discriminate].
-    destruct (nth s shs None) as [L|]; [|contradiction]. rewrite <- (hrel_len deg hs shs HR).
+    destruct (nth s shs None) as [L|]; [|contradiction]. rewrite <- (hrel_len deg hs shs HR). cbn in Hn.
     destruct (Nat.ltb d (length hs)); [|discriminate].
-    apply andb_prop in H as [H H3]. apply andb_prop in H as [H1 _]. rewrite H1. cbn [andb].
+    apply andb_prop in H as [H H3]. apply andb_prop in H as [H H2]. apply andb_prop in H as [H1 H1']. apply andb_prop in H2 as [H2 _].
+    rewrite (refines_list deg t L (proj1 Hn)) in H2. rewrite H1, H1', H2. cbn [andb].
     apply (IH (set_nth hs d (Some t))); [apply hrel_set; [exact HR|exact Hn]|exact H3].
   - pose proof (hrel_nth deg hs shs h HR) as Hn. destruct (nth h hs None) as [t|]; [|discriminate].
     destruct (nth h shs None) as [L|]; [|contradiction]. cbn in Hn.
     destruct (i_step_refines deg Hd t L io Hn) as (t' & E & R'). rewrite E in H.
-    apply andb_prop in H as [H H3]. apply andb_prop in H as [H1 H2]. apply andb_prop in H2 as [H2 H2'].
-    rewrite (refines_list deg t' _ R') in H2. rewrite H1, H2. cbn [andb].
+    apply andb_prop in H as [H H3]. apply andb_prop in H as [H H2]. apply andb_prop in H as [H1 H1']. apply andb_prop in H2 as [H2 H2'].
+    rewrite (refines_list deg t' _ R') in H2. rewrite H1, H1', H2. cbn [andb].
     apply (IH (set_nth hs h (Some t'))); [apply hrel_set; [exact HR|apply lim_small; assumption]|exact H3].
-  - rewrite (hrel_snap deg hs shs HR) in H. apply andb_prop in H as [H H3]. apply andb_prop in H as [H1 _]. rewrite H1. cbn [andb].
+  - rewrite (hrel_snap deg hs shs HR) in H. apply andb_prop in H as [H H3]. apply andb_prop in H as [H _]. apply andb_prop in H as [H1 H1']. rewrite H1, H1'. cbn [andb].
     apply (IH hs); assumption.
 Qed.
 
